@@ -60,6 +60,12 @@ class REPEX_state:
     def __init__(self, config, minus=False):
         """Initiate REPEX given confic dict from *toml file."""
         self.config = config
+        # every sampler holds its own containers: the class-level defaults
+        # would be shared by all samplers created in this process.
+        self.traj_data = {}
+        self.ensembles = {}
+        self.engine_occ = {}
+        self.pstore = PathStorage()
         # storage of additional trajectory files
         self.pstore.keep_traj_fnames = config.get("output", {}).get(
             "keep_traj_fnames", []
